@@ -12,7 +12,7 @@ for ty, ctor in [("SMB_STRING","var v SMB_STRING"),("OEM_STRING","v := NewOEM_ST
                  ("SMB_DIRECTORY_INFORMATION","v := NewSMB_DIRECTORY_INFORMATION()"),("SMB_FILE_ATTRIBUTES","var v SMB_FILE_ATTRIBUTES"),
                  ("SMB_NMPIPE_STATUS","var v SMB_NMPIPE_STATUS"),("SMB_RESUME_KEY","v := NewSMB_RESUME_KEY()"),
                  ("LOCKING_ANDX_RANGE32","var v LOCKING_ANDX_RANGE32"),("LOCKING_ANDX_RANGE64","var v LOCKING_ANDX_RANGE64"),("FILETIME","var v FILETIME")]:
-    add(T,"types",ty,f"{ctor}\n\tv.Unmarshal(data)",["0..12"]+(["43","44","53"] if ty=="SMB_DIRECTORY_INFORMATION" else []),["0..40"]+(["43..54"] if ty=="SMB_DIRECTORY_INFORMATION" else []))
+    add(T,"types",ty,f"{ctor}\n\tv.Unmarshal(data)",["0..12"]+(["20..26","43","44","53"] if ty=="SMB_DIRECTORY_INFORMATION" else []),["0..40"]+(["43..54"] if ty=="SMB_DIRECTORY_INFORMATION" else []))
 
 M="network/smb/smb_v10/message"
 add(M+"/data","data","Data","d := NewData()\n\td.Unmarshal(data)",["0..10"],["0..40"])
@@ -57,7 +57,7 @@ K="windows/keycredential"
 add(K,"keycredentiallink","KeyCredential_FromBytes","kc := &KeyCredential{}\n\tkc.FromBytes(data)",["0..12"],["0..28"],lossy_fmt=True)
 add(K,"keycredentiallink","DNWithBinary_Parse","d := &DNWithBinary{}\n\td.Parse(data)",["0..10"],["0..16"],lossy_fmt=True)
 add(K+"/crypto","crypto","RSAKeyMaterial_FromBytes","rk := &RSAKeyMaterial{}\n\trk.FromBytes(data)",["0..12","24","28"],["0..40"],lossy_fmt=True)
-add(K+"/key","key","CustomKeyInformation_FromBytes","cki := &CustomKeyInformation{}\n\tvar ver KeyCredentialVersion\n\tver.FromBytes(vBytes(\"ver\", 4))\n\tcki.FromBytes(data, ver)",["0..14"],["0..20"],lossy_fmt=True)
+add(K+"/key","key","CustomKeyInformation_FromBytes","cki := &CustomKeyInformation{}\n\tvar ver KeyCredentialVersion\n\tver.FromBytes(vBytes(\"ver\", 4))\n\tcki.FromBytes(data, ver)",["0..21"],["0..24"],lossy_fmt=True)
 add(K+"/key","key","KeyCredentialVersion_FromBytes","var ver KeyCredentialVersion\n\tver.FromBytes(data)",["0..6"],["0..8"],lossy_fmt=True)
 add("crypto/gppp","gppp","GPPPDecryptBytes","GPPPDecryptBytes(data)",["0..3","15","17"],["0..17"],lossy_fmt=True)
 addS("crypto/gppp","gppp","GPPPDecryptBase64","GPPPDecryptBase64(data)",["0..6"],["0..10"],lossy_fmt=True)
